@@ -112,6 +112,7 @@ type world struct {
 	lane         *tasklane.TaskLane
 	waitReturned bool // some Wait() has returned
 	nWaiters     int  // concurrent callers of Wait()
+	nilPushed    bool // nil Tasks were pushed (their starts cannot be observed)
 	waitsBack    int
 	waitSeq      uint64
 	raised       []any
@@ -536,6 +537,7 @@ func (w *world) main() {
 		// the worker, like any other panicking task
 		if panicky > 0 && ch("nil.tasks", 3) == 0 {
 			simrt.Probe("nil_task_pushed")
+			w.nilPushed = true
 			for k := 0; k < w.lanes && k < 6; k++ {
 				if w.lane.PushTask(nil, k) == nil {
 					w.raised = append(w.raised, nilTaskPanic{})
@@ -601,6 +603,17 @@ func (w *world) main() {
 		}
 	}
 	w.checkLastPanic()
+	// after shutdown everything is at rest for good: the pending count still
+	// equals the tasks that were accepted and never started (those left in the
+	// buffers and those a queue goroutine was holding when it went away)
+	if w.waitsBack == w.nWaiters && !w.nilPushed {
+		st := w.lane.Status()
+		if want := w.pendingAccepted(); st.PendingTask != want {
+			w.violate("C14", "pending-count", fmt.Sprintf("at rest (after shutdown): PendingTask=%d, accepted-but-never-started=%d", st.PendingTask, want), "pending-count after-shutdown")
+		} else if want > 0 {
+			simrt.Probe("pending_exact_after_shutdown")
+		}
+	}
 }
 
 // crashPointProbes records in which protocol states the cancellation lands
